@@ -306,6 +306,11 @@ func (r *yieldRewriter) rewriteStmt(
 		// e.g., a range stmt left native (ptr to array, func, type param)
 		// keeps its yield calls, which are no-op stubs
 		r.assert(r.mustNoYield(stmt), stmt, "yield not supported in %T", stmt)
+		if rng, ok := stmt.(*ast.RangeStmt); ok {
+			// its body is part of the generator body all the same:
+			// defer, select, labels, goto are rejected there like everywhere else
+			r.rewriteBlockStmt(rng.Body, kindFor)
+		}
 		children.push(stmt, kindTrival)
 		return children
 	}
